@@ -34,107 +34,119 @@ fn arg(args: &[Val], i: usize) -> R<&Val> {
     args.get(i).ok_or_else(|| format!("missing argument {}", i))
 }
 
-/// Operations of the `Field` trait, generic over the field type.
-fn generic<F: Field>(
-    name: &str,
-    args: &[Val],
-    get: fn(&Val) -> R<F>,
-    wrap: fn(F) -> Val,
-) -> R<Option<Out>> {
-    let a = |i: usize| -> R<F> { get(arg(args, i)?) };
-    let one = |v: F| Ok(Some(Out::Ok(vec![wrap(v)])));
-    match name {
-        "zero" => one(F::zero()),
-        "one" => one(F::one()),
-        "add" => {
-            let mut x = a(0)?;
-            x.add_assign(&a(1)?);
-            one(x)
+/// Operations of the `Field` trait. Expanded twice per field type: once with method-call syntax on the
+/// CONCRETE type (what a user and the crate's own curve code get: an inherent method of the same name would take
+/// precedence) and once through the trait with a generic parameter (what generic code gets).
+macro_rules! field_ops_body {
+    ($F:ty, $name:expr, $args:expr, $get:expr, $wrap:expr) => {{
+        let a = |i: usize| -> R<$F> { $get(arg($args, i)?) };
+        let one = |v: $F| -> R<Option<Out>> { Ok(Some(Out::Ok(vec![$wrap(v)]))) };
+        match $name {
+            "zero" => one(<$F>::zero()),
+            "one" => one(<$F>::one()),
+            "add" => {
+                let mut x = a(0)?;
+                x.add_assign(&a(1)?);
+                one(x)
+            }
+            "sub" => {
+                let mut x = a(0)?;
+                x.sub_assign(&a(1)?);
+                one(x)
+            }
+            "mul" => {
+                let mut x = a(0)?;
+                x.mul_assign(&a(1)?);
+                one(x)
+            }
+            "neg" => {
+                let mut x = a(0)?;
+                x.negate();
+                one(x)
+            }
+            "dbl" => {
+                let mut x = a(0)?;
+                x.double();
+                one(x)
+            }
+            "sqr" => {
+                let mut x = a(0)?;
+                x.square();
+                one(x)
+            }
+            "inv" => Ok(Some(match a(0)?.inverse() {
+                Some(v) => Out::Ok(vec![$wrap(v)]),
+                None => Out::None,
+            })),
+            "frob" => {
+                let mut x = a(0)?;
+                let k = get_limbs(arg($args, 1)?)?;
+                x.frobenius_map(k[0] as usize);
+                one(x)
+            }
+            "pow" => {
+                let x = a(0)?;
+                let e = get_limbs(arg($args, 1)?)?;
+                one(x.pow(&e[..]))
+            }
+            "is_zero" => Ok(Some(Out::Ok(vec![Val::Bool(a(0)?.is_zero())]))),
+            "eq" => Ok(Some(Out::Ok(vec![Val::Bool(a(0)? == a(1)?)]))),
+            _ => Ok(None),
         }
-        "sub" => {
-            let mut x = a(0)?;
-            x.sub_assign(&a(1)?);
-            one(x)
-        }
-        "mul" => {
-            let mut x = a(0)?;
-            x.mul_assign(&a(1)?);
-            one(x)
-        }
-        "neg" => {
-            let mut x = a(0)?;
-            x.negate();
-            one(x)
-        }
-        "dbl" => {
-            let mut x = a(0)?;
-            x.double();
-            one(x)
-        }
-        "sqr" => {
-            let mut x = a(0)?;
-            x.square();
-            one(x)
-        }
-        "inv" => Ok(Some(match a(0)?.inverse() {
-            Some(v) => Out::Ok(vec![wrap(v)]),
-            None => Out::None,
-        })),
-        "frob" => {
-            let mut x = a(0)?;
-            let k = get_limbs(arg(args, 1)?)?;
-            x.frobenius_map(k[0] as usize);
-            one(x)
-        }
-        "pow" => {
-            let x = a(0)?;
-            let e = get_limbs(arg(args, 1)?)?;
-            one(x.pow(&e[..]))
-        }
-        "is_zero" => Ok(Some(Out::Ok(vec![Val::Bool(a(0)?.is_zero())]))),
-        "eq" => Ok(Some(Out::Ok(vec![Val::Bool(a(0)? == a(1)?)]))),
-        _ => Ok(None),
-    }
+    }};
 }
 
-fn repr_ops<T: PrimeFieldRepr>(
-    name: &str,
-    args: &[Val],
-    get: fn(&Val) -> R<T>,
-    wrap: fn(T) -> Val,
-) -> R<Out> {
-    let a = |i: usize| -> R<T> { get(arg(args, i)?) };
-    let n = |i: usize| -> R<i64> { get_int(arg(args, i)?) };
-    match name {
+fn generic<F: Field>(name: &str, args: &[Val], get: fn(&Val) -> R<F>, wrap: fn(F) -> Val) -> R<Option<Out>> {
+    field_ops_body!(F, name, args, get, wrap)
+}
+
+macro_rules! concrete_field {
+    ($fname:ident, $F:ty, $get:ident, $wrap:path) => {
+        fn $fname(name: &str, args: &[Val]) -> R<Option<Out>> {
+            field_ops_body!($F, name, args, $get, $wrap)
+        }
+    };
+}
+concrete_field!(concrete_fq, Fq, get_fq, Val::Fq);
+concrete_field!(concrete_fr, Fr, get_fr, Val::Fr);
+concrete_field!(concrete_fq2, Fq2, get_fq2, Val::Fq2);
+concrete_field!(concrete_fq6, Fq6, get_fq6, Val::Fq6);
+concrete_field!(concrete_fq12, Fq12, get_fq12, Val::Fq12);
+
+macro_rules! repr_ops_body {
+    ($T:ty, $name:expr, $args:expr, $get:expr, $wrap:expr) => {{
+    let a = |i: usize| -> R<$T> { $get(arg($args, i)?) };
+    let n = |i: usize| -> R<i64> { get_int(arg($args, i)?) };
+    match $name {
         "add_nocarry" => {
             let mut x = a(0)?;
             x.add_nocarry(&a(1)?);
-            ok1(wrap(x))
+            ok1($wrap(x))
         }
         "sub_noborrow" => {
             let mut x = a(0)?;
             x.sub_noborrow(&a(1)?);
-            ok1(wrap(x))
+            ok1($wrap(x))
         }
         "shr" => {
             let mut x = a(0)?;
             x.shr(n(1)? as u32);
-            ok1(wrap(x))
+            ok1($wrap(x))
         }
         "shl" => {
             let mut x = a(0)?;
             x.shl(n(1)? as u32);
-            ok1(wrap(x))
+            ok1($wrap(x))
         }
         "div2" => {
             let mut x = a(0)?;
             x.div2();
-            ok1(wrap(x))
+            ok1($wrap(x))
         }
         "mul2" => {
             let mut x = a(0)?;
             x.mul2();
-            ok1(wrap(x))
+            ok1($wrap(x))
         }
         "num_bits" => ok1(Val::Int(a(0)?.num_bits() as i64)),
         "is_zero" => ok1(Val::Bool(a(0)?.is_zero())),
@@ -143,8 +155,8 @@ fn repr_ops<T: PrimeFieldRepr>(
         "cmp" => ok1(ord(a(0)?.cmp(&a(1)?))),
         "eq" => ok1(Val::Bool(a(0)? == a(1)?)),
         "from_u64" => {
-            let l = get_limbs(arg(args, 0)?)?;
-            ok1(wrap(T::from(l[0])))
+            let l = get_limbs(arg($args, 0)?)?;
+            ok1($wrap(<$T>::from(l[0])))
         }
         "write_be" => {
             let mut v = vec![];
@@ -157,23 +169,34 @@ fn repr_ops<T: PrimeFieldRepr>(
             ok1(Val::Bytes(v))
         }
         "read_be" => {
-            let b = get_bytes(arg(args, 0)?)?;
-            let mut x = T::default();
+            let b = get_bytes(arg($args, 0)?)?;
+            let mut x = <$T>::default();
             match x.read_be(&b[..]) {
-                Ok(()) => ok1(wrap(x)),
+                Ok(()) => ok1($wrap(x)),
                 Err(_) => Ok(Out::Err("io".into())),
             }
         }
         "read_le" => {
-            let b = get_bytes(arg(args, 0)?)?;
-            let mut x = T::default();
+            let b = get_bytes(arg($args, 0)?)?;
+            let mut x = <$T>::default();
             match x.read_le(&b[..]) {
-                Ok(()) => ok1(wrap(x)),
+                Ok(()) => ok1($wrap(x)),
                 Err(_) => Ok(Out::Err("io".into())),
             }
         }
-        _ => Err(format!("unknown repr op {}", name)),
+        _ => Err(format!("unknown repr op {}", $name)),
     }
+    }};
+}
+
+fn repr_ops<T: PrimeFieldRepr>(name: &str, args: &[Val], get: fn(&Val) -> R<T>, wrap: fn(T) -> Val) -> R<Out> {
+    repr_ops_body!(T, name, args, get, wrap)
+}
+fn repr_ops_fq(name: &str, args: &[Val]) -> R<Out> {
+    repr_ops_body!(FqRepr, name, args, get_fqrepr, Val::FqRepr)
+}
+fn repr_ops_fr(name: &str, args: &[Val]) -> R<Out> {
+    repr_ops_body!(FrRepr, name, args, get_frrepr, Val::FrRepr)
 }
 
 macro_rules! prime_ops {
@@ -210,12 +233,17 @@ macro_rules! prime_ops {
     }};
 }
 
-pub fn run(fam: &str, name: &str, args: &[Val]) -> R<Out> {
+pub fn run(fam0: &str, name: &str, args: &[Val]) -> R<Out> {
+    // family `Tfq`, `TQ`, ... = the same operation through the trait with a generic parameter
+    let (via_trait, fam) = match fam0.strip_prefix('T') {
+        Some(f) => (true, f),
+        None => (false, fam0),
+    };
     match fam {
-        "Q" => return repr_ops::<FqRepr>(name, args, get_fqrepr, Val::FqRepr),
-        "R" => return repr_ops::<FrRepr>(name, args, get_frrepr, Val::FrRepr),
+        "Q" => return if via_trait { repr_ops::<FqRepr>(name, args, get_fqrepr, Val::FqRepr) } else { repr_ops_fq(name, args) },
+        "R" => return if via_trait { repr_ops::<FrRepr>(name, args, get_frrepr, Val::FrRepr) } else { repr_ops_fr(name, args) },
         "fq" => {
-            if let Some(o) = generic::<Fq>(name, args, get_fq, Val::Fq)? {
+            if let Some(o) = (if via_trait { generic::<Fq>(name, args, get_fq, Val::Fq)? } else { concrete_fq(name, args)? }) {
                 return Ok(o);
             }
             prime_ops!(name, args, Fq, get_fq, Val::Fq, get_fqrepr, Val::FqRepr);
@@ -231,13 +259,13 @@ pub fn run(fam: &str, name: &str, args: &[Val]) -> R<Out> {
             }
         }
         "fr" => {
-            if let Some(o) = generic::<Fr>(name, args, get_fr, Val::Fr)? {
+            if let Some(o) = (if via_trait { generic::<Fr>(name, args, get_fr, Val::Fr)? } else { concrete_fr(name, args)? }) {
                 return Ok(o);
             }
             prime_ops!(name, args, Fr, get_fr, Val::Fr, get_frrepr, Val::FrRepr);
         }
         "fq2" => {
-            if let Some(o) = generic::<Fq2>(name, args, get_fq2, Val::Fq2)? {
+            if let Some(o) = (if via_trait { generic::<Fq2>(name, args, get_fq2, Val::Fq2)? } else { concrete_fq2(name, args)? }) {
                 return Ok(o);
             }
             let a = |i: usize| -> R<Fq2> { get_fq2(arg(args, i)?) };
@@ -267,7 +295,7 @@ pub fn run(fam: &str, name: &str, args: &[Val]) -> R<Out> {
             }
         }
         "fq6" => {
-            if let Some(o) = generic::<Fq6>(name, args, get_fq6, Val::Fq6)? {
+            if let Some(o) = (if via_trait { generic::<Fq6>(name, args, get_fq6, Val::Fq6)? } else { concrete_fq6(name, args)? }) {
                 return Ok(o);
             }
             let a = |i: usize| -> R<Fq6> { get_fq6(arg(args, i)?) };
@@ -292,7 +320,7 @@ pub fn run(fam: &str, name: &str, args: &[Val]) -> R<Out> {
             }
         }
         "fq12" => {
-            if let Some(o) = generic::<Fq12>(name, args, get_fq12, Val::Fq12)? {
+            if let Some(o) = (if via_trait { generic::<Fq12>(name, args, get_fq12, Val::Fq12)? } else { concrete_fq12(name, args)? }) {
                 return Ok(o);
             }
             let a = |i: usize| -> R<Fq12> { get_fq12(arg(args, i)?) };
